@@ -28,7 +28,7 @@ ActionClauses ==
   \cup C("C18.repr_roundtrip", r.rr = 1)
   \cup (IF e.k \in {KF, KR}
         THEN      C("C18.steps.len", r.ln = e.b - e.a \/ r.ln = e.a - e.b)
-             \cup C("C18.steps.iter", r.it = <<-1>> \/ r.it = StepsOf(e))
+             \cup C("C18.steps.iter", r.it = <<-1>> \/ (r.it = StepsOf(e) /\ r.it2 = StepsOf(e)))
              \cup C("C18.steps.contains",
                     \A m \in SeqRange(r.mem) :
                        m[2] = (IF Min(e.a, e.b) <= m[1] /\ m[1] < Max(e.a, e.b) THEN 1 ELSE 0))
